@@ -16,6 +16,7 @@ REGISTRY = {
     "C04": "ap",
     "C10": "filtering",
     "C14": "labels",
+    "C15": "config",
     "C20": "enums",
     "C07": "frames",
     "C05": "clear",
